@@ -714,6 +714,7 @@ Definition crule_holds (g : dg) (c : crule) : Prop :=
   | CU _ (UEdgesLe k fail) => length (edge_pairs g) <= k \/ rejects fail = false
   | CU _ (UNodesLe k fail) => length g <= k \/ rejects fail = false
   | CU _ (UNested bs) => forall b, In b bs -> cond b g
+  | CU _ (UMutate _ ret) => rejects ret = false
   end.
 
 Lemma o_edge_count_eq : forall g, o_edge_count (mk_roracle g) = length (edge_pairs g).
@@ -746,12 +747,13 @@ Qed.
 
 Lemma o_rule_holds_iff : forall g c, wf g -> (o_rule_holds (mk_roracle g) c = true <-> crule_holds g c).
 Proof.
-  intros g c Hwf. destruct c as [b|native [o|k fail|k fail|bs]]; cbn [o_rule_holds crule_holds].
+  intros g c Hwf. destruct c as [b|native [o|k fail|k fail|bs|m ret]]; cbn [o_rule_holds crule_holds].
   - apply o_cond_iff. exact Hwf.
   - apply negb_true_iff.
   - rewrite orb_true_iff, negb_true_iff, Nat.leb_le, o_edge_count_eq. reflexivity.
   - rewrite orb_true_iff, negb_true_iff, Nat.leb_le. reflexivity.
   - rewrite forallb_forall. split; intros H b Hb; apply (o_cond_iff g b Hwf); apply H; exact Hb.
+  - apply negb_true_iff.
 Qed.
 
 (* clause 1 of holds_l: when no configured user rule raises a foreign exception, the observed
@@ -926,4 +928,65 @@ Proof.
   destruct (verify_is_stateless v (pre' ++ g :: post')) as [_ H2].
   rewrite (H1 (length pre) g), (H2 (length pre') g); [reflexivity| |];
     rewrite nth_error_app2, Nat.sub_diag by lia; reflexivity.
+Qed.
+
+(* ======================================================================================== *)
+(* Part G - rules with side effects on their argument                                        *)
+(* ======================================================================================== *)
+(* frame theorem: when every modifying rule is a domain rule under a copying adapter
+   (DirectAdapter, NetworkX adapter), the loop with the threaded graph state IS the pure loop on
+   the original graph, and the verified graph is unchanged - whatever the rules do to the
+   restored graphs they are given.  The same holds when no rule modifies anything. *)
+Lemma rule_effect_protected : forall ad c s,
+  (match c with CU native (UMutate _ _) => negb (aliases ad native) | _ => true end) = true ->
+  rule_effect ad c s = s.
+Proof.
+  intros ad c s H. destruct c as [b|native [o|k f|k f|bs|m ret]]; try reflexivity.
+  cbn [rule_effect]. apply negb_true_iff in H. rewrite H. reflexivity.
+Qed.
+
+Theorem verify_m_frame : forall ad rf rules s, protected ad rules = true ->
+  verify_m ad rf rules s = (verify (restore_of ad) rf (map denote rules) (fst s), s) /\
+  user_calls_m ad 0 rules s = user_calls ad 0 rules (fst s).
+Proof.
+  intros ad rf rules s H. unfold user_calls. generalize 0 as i.
+  induction rules as [|c rest IH]; intros i; [split; reflexivity|].
+  cbn [protected forallb] in H. apply andb_true_iff in H. destruct H as [Hc Hr].
+  cbn [verify_m user_calls_m user_calls_with map verify]. fold (denote c).
+  rewrite (rule_effect_protected ad c s Hc).
+  destruct (IH Hr (S i)) as [IH1 IH2]. rewrite IH2.
+  destruct (run_rule (restore_of ad) (denote c) (fst s)); split; try reflexivity; try exact IH1;
+    destruct (IH Hr i) as [IH1' _]; exact IH1'.
+Qed.
+
+(* a second verification of the same graph object then gives the same answer *)
+Corollary verify_m_repeat : forall ad rf rules s, protected ad rules = true ->
+  verify_m ad rf rules (snd (verify_m ad rf rules s)) = verify_m ad rf rules s.
+Proof. intros ad rf rules s H. destruct (verify_m_frame ad rf rules s H) as [E _]. rewrite E. cbn [snd]. exact E. Qed.
+
+(* conversely, a rule handed the verified graph itself can change the verdict of later rules:
+   a native "drop the last node" rule followed by has_one_root on  0 <- 1, 0 <- 2  *)
+Theorem aliasing_rule_changes_verdict : exists ad rules g,
+  fst (verify_m ad false rules (g, false)) <> verify (restore_of ad) false (map denote rules) g.
+Proof.
+  exists AdNx, [CU true (UMutate MDropLast RTrue); CB BNoIsoNodes], [[1]; []; []].
+  vm_compute. discriminate.
+Qed.
+
+(* holds_m is sound: for protected rule lists it demands an unchanged graph and holds_b on the
+   original graph for every call *)
+Theorem holds_m_sound : forall ad rf rules g l, protected ad rules = true -> holds_m ad rf rules g l = true ->
+  forall m, In m l -> mo_final m = g /\ mo_renamed m = false /\ holds_b ad rf rules g (mo_obs m) = true.
+Proof.
+  intros ad rf rules g l HP H m Hm. unfold holds_m in H. rewrite HP in H. cbn [negb orb] in H.
+  rewrite forallb_forall in H. specialize (H m Hm).
+  apply andb_true_iff in H. destruct H as [H H3]. apply andb_true_iff in H. destruct H as [H1 H2].
+  split; [symmetry; apply dg_eqb_eq|split; [apply negb_true_iff; exact H2|exact H3]].
+  unfold dg_eqb in *. clear -H1. revert H1. generalize (mo_final m) as a. intros a H.
+  assert (S : forall (x y : dg), leqb (leqb Nat.eqb) x y = true -> leqb (leqb Nat.eqb) y x = true).
+  { intros x y E. apply (leqb_eq (leqb Nat.eqb)) in E.
+    - subst y. clear. induction x as [|r x IH]; [reflexivity|]. simpl. rewrite IH, andb_true_r.
+      induction r as [|k r IHr]; [reflexivity|]. simpl. rewrite Nat.eqb_refl. exact IHr.
+    - apply leqb_eq. intros u v Euv. apply Nat.eqb_eq. exact Euv. }
+  apply S. exact H.
 Qed.
